@@ -147,12 +147,13 @@ func (w *c16World) grow(parent consensus.State, n int, addr types.Address, txns 
 				return cs, nil, fmt.Errorf("%s rejected harness block at height %d: %w", nd.Name, cs.Index.Height+1, err)
 			}
 		}
-		// the child state is known to whoever stored the block
-		st, ok := to[0].CM.State(b.ID())
-		if !ok {
-			return cs, nil, fmt.Errorf("state of freshly added block missing")
+		// the first recipient must be a node for which this branch is the best
+		// chain: only an applied block has a complete state (a stored but
+		// unapplied block only has its header state)
+		if to[0].CM.Tip().ID != b.ID() {
+			return cs, nil, fmt.Errorf("HARNESS: %s did not move to the block it was given first", to[0].Name)
 		}
-		cs = st
+		cs = to[0].CM.TipState()
 	}
 	return cs, blocks, nil
 }
@@ -188,6 +189,12 @@ func newC16World(c C16Case) (w *c16World, err error) {
 		return
 	}
 	all := []*rhpc.Node{w.H.Node, w.R.Node, w.I}
+	// the reference contractor follows the chain through reorg notifications,
+	// so the host exists before the first block
+	w.hw = &rhpc.RecWallet{Wallet: w.H.W}
+	w.settled = rhpc.DefaultSettings(w.H.Addr())
+	w.host = rhpc.NewRealHost(c16HostID, w.H.CM, w.hw, w.settled)
+	w.signer = &rhpc.FundAndSign{W: w.R.W, PK: c16ContractKey}
 	cs := w.H.CM.TipState()
 	if cs, _, err = w.grow(cs, 3, w.H.Addr(), nil, all...); err != nil {
 		return
@@ -198,10 +205,6 @@ func newC16World(c C16Case) (w *c16World, err error) {
 	if cs, _, err = w.grow(cs, int(n.MaturityDelay)+1, rhpc.VoidAddr, nil, all...); err != nil {
 		return
 	}
-	w.hw = &rhpc.RecWallet{Wallet: w.H.W}
-	w.settled = rhpc.DefaultSettings(w.H.Addr())
-	w.host = rhpc.NewRealHost(c16HostID, w.H.CM, w.hw, w.settled)
-	w.signer = &rhpc.FundAndSign{W: w.R.W, PK: c16ContractKey}
 	if err = w.syncAll(); err != nil {
 		return
 	}
@@ -273,7 +276,7 @@ func newC16World(c C16Case) (w *c16World, err error) {
 	case "stale":
 		// the host followed branch A, then reorganised to the longer branch B
 		if err = fork(cs, k, w.H.Node, w.R.Node); err == nil {
-			_, _, err = w.grow(cs, k+1, rhpc.VoidAddr, nil, w.H.Node, w.I)
+			_, _, err = w.grow(cs, k+1, rhpc.VoidAddr, nil, w.I, w.H.Node)
 		}
 	case "stale-unapplied":
 		// the host stored the renter's branch but never applied it
@@ -610,6 +613,9 @@ func runC16(c C16Case, cs *kit.CaseStats) error {
 		isRenewal := c.RPC != "form"
 		head := fmt.Sprintf("%s (basis %s, fault %s, attempt %d)", c.RPC, c.Basis, faultLabel(f), rep+1)
 
+		if os.Getenv("VERIF_C16_TRACE") != "" {
+			fmt.Printf("TRACE %s committed=%d hostFunded=%v err=%v\n", head, committed, hostFunded, callErr)
+		}
 		switch {
 		case callErr == nil:
 			cs.Class("outcome=success")
@@ -698,7 +704,10 @@ func runC16(c C16Case, cs *kit.CaseStats) error {
 			if d := renterBefore.Diff(renterAfter); d != "" {
 				return fmt.Errorf("%s failed (%v) and no contract was recorded, but the renter's wallet did not return to its pre-attempt state: %s", head, callErr, d)
 			}
-			if f.Kind == "" && c.Invalid == "" && (c.Basis == "same" || c.Basis == "behind" || (c.Basis == "stale" && !c.OnFork)) {
+			// (a transaction whose inputs are unconfirmed cannot be rebased by
+			// chain.Manager.UpdateV2TransactionSet, so unconfirmed funds only
+			// have to work on the same tip)
+			if f.Kind == "" && c.Invalid == "" && (c.Basis == "same" || (!c.Unconf && (c.Basis == "behind" || (c.Basis == "stale" && !c.OnFork)))) {
 				// nothing stands in the way of this exchange
 				return fmt.Errorf("non-vacuity: %s without any fault failed: %v", head, callErr)
 			}
